@@ -2,7 +2,7 @@
 import os
 
 from . import core
-from .rules import stdio, cert, mark, exact, optstore, inval, idx, atomic, own, tokens, idxclass, copy, pair, structfree, buf, div, counter, sentinel, appendinit, verdict, basismap, zerotol, escape, lenclass, djsym, ndet, useb4check, norms, opencheck, shell, esolver, errlost, rescan, certdep, neverset, fmt, defaults, scratch, fullscan, slotleak, floatidx, sensemap, trunc, vtypezero, allockind, intdiv, strscan, localfield, rawidx, argcap, staleptr, condalloc, lpstate, vstattype, alphabet, outleak, fieldleak, lenm1, basisdim, dupmark, rowcopy, normlen, logonly, decacc, nzcount
+from .rules import stdio, cert, mark, exact, optstore, inval, idx, atomic, own, tokens, idxclass, copy, pair, structfree, buf, div, counter, sentinel, appendinit, verdict, basismap, zerotol, escape, lenclass, djsym, ndet, useb4check, norms, opencheck, shell, esolver, errlost, rescan, certdep, neverset, fmt, defaults, scratch, fullscan, slotleak, floatidx, sensemap, trunc, vtypezero, allockind, intdiv, strscan, localfield, rawidx, argcap, staleptr, condalloc, lpstate, vstattype, alphabet, outleak, fieldleak, lenm1, basisdim, dupmark, rowcopy, normlen, logonly, decacc, nzcount, infmap
 from .effects import Effects
 
 FIX = os.path.join(os.path.dirname(os.path.abspath(__file__)), "fixtures")
@@ -333,7 +333,7 @@ PROPS = {
     },
     "C16": {
         "rules": [lambda prog, tier: copy.run_shallow(prog), lambda prog, tier: copy.run_params(prog), lambda prog, tier: copy.run_strflags(prog),
-                  lambda prog, tier: copy.run_clobber(prog), lambda prog, tier: nzcount.run(prog, shared_eff(prog)), lambda prog, tier: copy.run_fields(prog, shared_eff(prog)),
+                  lambda prog, tier: copy.run_clobber(prog), lambda prog, tier: nzcount.run(prog, shared_eff(prog)), lambda prog, tier: copy.run_fields(prog, shared_eff(prog)), lambda prog, tier: infmap.run(prog),
                   lambda prog, tier: exact.run(prog, {"COPY": {"roots": ["QScopy_prob_mpq_dbl", "QScopy_prob_mpq_mpf"], "closure": False}},
                                                exceptions={("QScopy_prob_mpq_dbl", "mpq_get_d"): "the conversion to double itself: mpq_get_d truncates to the nearest "
                                                            "double toward zero, within one unit in the last place",
@@ -750,7 +750,9 @@ _ADD = {
                            "non-zero total (a problem whose total went stale differs observably from its copy, which is rebuilt entry by entry). (R-COPYFIELDS) sibling agreement of the two routines that build a whole problem: every field of "
                            "the problem record that the file reader's conversion fills with something other than a constant and that the writers read "
                            "is also filled for the new problem by QScopy_prob or a callee (fill summaries computed bottom-up; stores of constants and "
-                           "releases do not count)."},
+                           "releases do not count). (R-INFMAP) every rational-to-double / rational-to-mpf conversion in the reduced-precision copy routines "
+                           "(array macros included) is dominated by the tests of the value against both rational infinity sentinels, unless the value "
+                           "was fetched for a parameter whose source is a double."},
     "C17": {"technique": "; capacity-governed allocation agreement (governed arrays discovered from their allocation sites); read-but-never-written "
                          "field census; printf-format census; floating-point-derived subscript taint; four-array norm typestate at a basis load; "
                          "index-space typing of subscripts in the raw-to-LP conversion (R-RAWIDX); subscript-space requirement of parameters "
